@@ -1039,14 +1039,14 @@ fn emit_item(idx: usize, cfg: &Config, wit: &str) -> Result<(String, ItemOut)> {
                 any_async = true;
                 writeln!(
                     glue,
-                    "fn bn_drive_{dk}(t: &::bn_rt::Term, _keep: bool) -> String {{ let items = t.items(); assert_eq!(items.len(), {}); let fut = {callee}({}); let lim = ::bn_async::PollLimited::new(fut, ::bn_async::budget()); let r = ::wit_bindgen::block_on(lim); let s = ::bn_rt::harness(|| match &r {{ Some(v) => {{ let mut s = String::new(); ::bn_rt::Show::show(v, &mut s); s }} None => String::from(\"cancelled\") }}); drop(r); ::bn_rt::release_keep(); s }}",
+                    "fn bn_drive_{dk}(t: &::bn_rt::Term, _keep: bool) -> String {{ let items = t.items(); assert_eq!(items.len(), {}); {lets}let fut = {callee}({}); let lim = ::bn_async::PollLimited::new(fut, ::bn_async::budget()); let r = ::wit_bindgen::block_on(lim); let s = ::bn_rt::harness(|| match &r {{ Some(v) => {{ let mut s = String::new(); ::bn_rt::Show::show(v, &mut s); s }} None => String::from(\"cancelled\") }}); drop(r); ::bn_rt::release_keep(); s }}",
                     f.params.len(),
                     args.join(", ")
                 )
                 .unwrap();
                 writeln!(
                     glue,
-                    "fn bn_adrive_{dk}(t: ::bn_rt::Term) -> ::core::pin::Pin<::std::boxed::Box<dyn ::core::future::Future<Output = String>>> {{ ::std::boxed::Box::pin(async move {{ let _bn_keep = ::bn_async::KeepGuard; let fut = {{ let items = t.items(); assert_eq!(items.len(), {}); {callee}({}) }}; ::bn_rt::harness(move || drop(t)); let r = fut.await; let s = ::bn_rt::harness(|| {{ let mut s = String::new(); ::bn_rt::Show::show(&r, &mut s); s }}); drop(r); s }}) }}",
+                    "fn bn_adrive_{dk}(t: ::bn_rt::Term) -> ::core::pin::Pin<::std::boxed::Box<dyn ::core::future::Future<Output = String>>> {{ ::std::boxed::Box::pin(async move {{ let _bn_keep = ::bn_async::KeepGuard; let fut = {{ let items = t.items(); assert_eq!(items.len(), {}); {lets}{callee}({}) }}; ::bn_rt::harness(move || drop(t)); let r = fut.await; let s = ::bn_rt::harness(|| {{ let mut s = String::new(); ::bn_rt::Show::show(&r, &mut s); s }}); drop(r); s }}) }}",
                     f.params.len(),
                     args.join(", ")
                 )
